@@ -12,6 +12,7 @@ from __future__ import annotations
 import enum
 from dataclasses import dataclass, field
 from datetime import datetime
+from types import FunctionType
 
 from sqlalchemy import types, TypeDecorator
 from typing_extensions import List, Optional
@@ -63,9 +64,26 @@ class VB(VA):
     extra: int = 0
 
 
+class Fa:
+    @staticmethod
+    def act():
+        return "Fa.act"
+
+
+class Fb:
+    @staticmethod
+    def act():            # the same function name in another class of the same module
+        return "Fb.act"
+
+
+def plain_function():
+    return "plain"
+
+
 @dataclass(eq=False)
 class VC:
     tag: int = 0
+    cb: Optional[FunctionType] = None     # a function-valued field (alternatively mapped by FunctionMapping)
     tag2: int = 0
     j1: Optional[jsonmodel.A] = None       # polymorphic JSON column
     j2: Optional[jsonmodel2.A] = None      # a serialisable class of the same short name from another module
@@ -78,6 +96,12 @@ class VC:
 class VM:
     label: str = ""
     ref: Optional[VA] = None
+
+
+@dataclass(eq=False)
+class VN(VM):
+    """A normally mapped subclass of the alternatively mapped VM."""
+    extra: int = 0
 
 
 @dataclass
@@ -93,4 +117,4 @@ class VMMapping(AlternativeMapping[VM]):
         return VM(self.label, self.ref)
 
 
-MAPPED = [VA, VB, VC, VM]
+MAPPED = [VA, VB, VC, VM, VN]
